@@ -888,10 +888,13 @@ class ModelView:
         self.mid = {m: i + 1 for i, m in enumerate(self.mods)}
         self.flags = flags or {}
 
+    offset = 0          # items of the library of another user are numbered from (user index) * 10^9
+
     def item(self, n, v, i):
-        return self.tid[n] * 1000000 + v * 10000 + i
+        return self.offset + self.tid[n] * 1000000 + v * 10000 + i
 
     def unitem(self, x):
+        x -= self.offset
         return self.names[x // 1000000 - 1], (x % 1000000) // 10000, x % 10000
 
     def rules(self):
@@ -943,40 +946,106 @@ class ModelView:
                 return ["item", self.item(n, v, i)]
         return ["item", 999999999]
 
-    def line(self, pre=()):
-        sc, src = self.sc, self.src
-        self.npre = len(pre)
-        cur = {n: 0 for n in self.names}
+    def files_sexp(self):
         files = []
         for k, n in enumerate(self.names):
             v = self.files[n][0]
             files.append([self.tid[n], [self.tid.get(i, 0) for i in v["imports"]],
                           [self.item(n, 0, i) for i in range(len(v["items"]))], T0 + k])
+        return files
+
+    def op_sexp(self, op, cur):
+        """one op of this view's user as the model's (single-user) op; `cur`: current version per file"""
+        if op["op"] == "load":
+            f = op.get("fault")
+            n = op["name"]
+            if n not in self.tid:
+                return ["load", 0, "none", "none"]
+            fault = "none" if not f else self.item(f[0], cur[f[0]], f[1])
+            return ["load", self.tid[n], self.limit(n, cur[n], op["limit"]), fault]
+        if op["op"] == "import":
+            return ["imp", self.mid[op["module"]]]
+        if op["op"] == "touch":
+            return ["touch", self.tid[op["name"]], op["mtime"]]
+        if op["op"] == "edit":
+            n, v = op["name"], op["version"]
+            cur[n] = v
+            return ["edit", self.tid[n], [self.tid.get(i, 0) for i in self.files[n][v]["imports"]],
+                    [self.item(n, v, i) for i in range(len(self.files[n][v]["items"]))], op["mtime"]]
+        if op["op"] == "reload":
+            return ["reload"]
+        return None
+
+    def tables(self):
+        src = self.src
         lazy = [[self.tid[t], self.mid[m]] for t, m in sorted(src["lazy"].items()) if t in self.tid]
         mods = [[self.mid[m], [["imp", self.mid[a[1]]] if a[0] == "imp" else ["load", self.tid.get(a[1], 0)] for a in src["modules"][m]]]
                 for m in self.mods]
+        return lazy, mods
+
+    def line(self, pre=()):
+        sc = self.sc
+        self.npre = len(pre)
+        cur = {n: 0 for n in self.names}
+        lazy, mods = self.tables()
         ops = [["imp", self.mid[m]] for m in pre]
         for op in sc.ops:
-            if op["op"] == "load":
-                f = op.get("fault")
-                n = op["name"]
-                if n not in self.tid:
-                    ops.append(["load", 0, "none", "none"])
-                    continue
-                fault = "none" if not f else self.item(f[0], cur[f[0]], f[1])
-                ops.append(["load", self.tid[n], self.limit(n, cur[n], op["limit"]), fault])
-            elif op["op"] == "import":
-                ops.append(["imp", self.mid[op["module"]]])
-            elif op["op"] == "touch":
-                ops.append(["touch", self.tid[op["name"]], op["mtime"]])
-            elif op["op"] == "edit":
-                n, v = op["name"], op["version"]
-                cur[n] = v
-                ops.append(["edit", self.tid[n], [self.tid.get(i, 0) for i in self.files[n][v]["imports"]],
-                            [self.item(n, v, i) for i in range(len(self.files[n][v]["items"]))], op["mtime"]])
-            elif op["op"] == "reload":
-                ops.append(["reload"])
-        return sexp.dumps(["run", FUEL, [self.tid[n] for n in self.names], files, lazy, mods, self.rules(), self.ext_rules(), ops])
+            x = self.op_sexp(op, cur)
+            if x is not None:
+                ops.append(x)
+        return sexp.dumps(["run", FUEL, [self.tid[n] for n in self.names], self.files_sexp(), lazy, mods, self.rules(), self.ext_rules(), ops])
+
+
+def line_users(sc, views, pre=()):
+    """the scenario with several users as one `runu` line of the model: master = user 0, the others numbered from 1"""
+    users = sc.users()
+    uidx = {None: 0}
+    for k, u in enumerate(users):
+        uidx[u] = k + 1
+        views[u].offset = (k + 1) * 10 ** 9
+    mv0 = views[None]
+    mv0.npre = len(pre)
+    lazy, mods = mv0.tables()
+    rules, ext = [], []
+    for u in [None] + users:
+        rules += views[u].rules()
+        ext += views[u].ext_rules()
+    ulibs = [[uidx[u], [views[u].tid[n] for n in views[u].names], views[u].files_sexp()] for u in users]
+    cur = {u: {n: 0 for n in views[u].names} for u in [None] + users}
+    ops = [["imp", mv0.mid[m]] for m in pre]
+    for op in sc.ops:
+        u = op.get("user") or None
+        x = views[u].op_sexp({k: v for k, v in op.items() if k != "user"}, cur[u])
+        if x is None:
+            continue
+        ops.append(x if x[0] == "imp" else [x[0], uidx[u]] + x[1:])
+    return sexp.dumps(["runu", FUEL, [mv0.tid[n] for n in mv0.names], mv0.files_sexp(), lazy, mods, rules, ext, ulibs, ops])
+
+
+def parse_model_users(line, sc, views):
+    x = sexp.loads(line)
+    if x == "bad-op":
+        return None
+    users = sc.users()
+    byidx = {0: views[None]}
+    for k, u in enumerate(users):
+        byidx[k + 1] = views[u]
+    ops = []
+    for (res, evs, thy_j), op in zip(x[0][views[None].npre:], sc.ops):
+        mv = views[op.get("user") or None]
+        reads, mods = [], []
+        for ev in evs:
+            if ev == "meta":
+                reads.append("#meta")
+            elif ev[0] == "read":
+                reads.append(mv.names[int(ev[1]) - 1])
+            elif ev[0] == "exec":
+                mods.append(mv.mods[int(ev[1]) - 1])
+        thy = None
+        if thy_j != "none":
+            thy = [list(byidx[int(i) // 10 ** 9].unitem(int(i)))[::2] for i in thy_j]
+        ops.append({"res": res, "reads": reads, "mods": mods, "thy": thy})
+    return {"ops": ops, "thy": None}
 
 
 def parse_model(line, mv):
@@ -1224,12 +1293,15 @@ def model_names(mv, sc, j, thy):
     return out
 
 
-def correspond(ctx, sc, h, model_out, mv, label):
+def correspond(ctx, sc, h, model_out, mv, label, views=None):
     """Model correspondence (never a violation by itself).  Outcomes are matched by exception class.  With working
     instrumentation: files parsed, modules executed, exact item list of theory.thy at every load.  When the wrappers
     were bypassed: only the outcome and the names the model's theory must contribute (scenarios with injected faults
     are skipped, the fault cannot be injected)."""
-    m = parse_model(model_out, mv) if model_out else None
+    if views is not None and sc.users():
+        m = parse_model_users(model_out, sc, views) if model_out else None
+    else:
+        m = parse_model(model_out, mv) if model_out else None
     if m is None:
         ctx.broken("correspondence:c12:driver", "model driver gave no answer for %s" % label)
         return False
@@ -1257,7 +1329,7 @@ def correspond(ctx, sc, h, model_out, mv, label):
                     k = next((k for k in range(min(len(ht), len(mt))) if ht[k] != mt[k]), min(len(ht), len(mt)))
                     bad.append("op %d %s: theory items differ at position %d: impl %s model %s (lengths %d / %d)" % (
                         j, sc.ops[j], k, ht[k:k + 3], mt[k:k + 3], len(ht), len(mt)))
-            elif not full and po.get("names") is not None and mt is not None and po["res"] == "ok":
+            elif not full and po.get("names") is not None and mt is not None and po["res"] == "ok" and not sc.users():
                 have = {(part, nm) for part in po["names"] for nm in po["names"][part]}
                 lack = sorted(model_names(mv, sc, j, mt) - have)
                 if lack:
@@ -1314,7 +1386,8 @@ def run_scenarios(ctx, scs, src, label, zygote=False, search=True):
                     flags.setdefault(n, fl)
         vs = {u: ModelView(sc.sub(u), src, flags) for u in [None] + sc.users()}
         views.append(vs)
-        lines.append(vs[None].line(h.get("pre", []) if "error" not in h else []))
+        pre_mods = h.get("pre", []) if "error" not in h else []
+        lines.append(line_users(sc, vs, pre_mods) if sc.users() else vs[None].line(pre_mods))
     out = ctx.lean_driver(EXE, lines) if lines else []
     nviol = 0
     broken_scs = []
@@ -1343,8 +1416,8 @@ def run_scenarios(ctx, scs, src, label, zygote=False, search=True):
             if judge_spec(ctx, sc, j, h["ops"][j], views[idx][sc.ops[j].get("user")], "history"):
                 nviol += 1
         if sc.users():
-            ctx.count("not-modelled:other-users")        # the model has one user; oracles (a) and (c) only
-        elif not correspond(ctx, sc, h, out[idx] if out else None, views[idx][None], lab):
+            ctx.count("modelled:several-users")
+        if not correspond(ctx, sc, h, out[idx] if out else None, views[idx][None], lab, views[idx]):
             if len(ctx.violations) + len(ctx.known_hits) == before and sc.kind == "synth" and search:
                 broken_scs.append(sc)
     if out is None:
@@ -1449,8 +1522,8 @@ def run(ctx):
         "file timestamps set explicitly with os.utime (granularity of real file systems not modelled)"]
     ctx.assumptions += [
         "item contents and the parser are opaque in the model: the result of parsing an item is a function of the item and of the items visible",
-        "Lean theorems are about histories that keep file contents (touch, loads, faulted loads, imports, load_metadata); edits are "
-        "covered by the subprocess oracles and the model correspondence only",
+        "Lean theorems cover histories with edits under OkHistory: a replaced/touched file gets a timestamp it never had in this "
+        "process; no load between an edit of `imports` and load_metadata",
         "a change of a file's `imports` needs basic.load_metadata() before the next load (known finding, generated and keyed)",
         "the Python package smt/ of the repository is shadowed by site-packages and is not imported in histories",
         "no theorem bounds the model's fuel; the runs use fuel 400 and would show a model answer `fuel` as a correspondence break",
@@ -1487,38 +1560,42 @@ def replay(ctx, rp):
 MANIFEST = {
     "text": "Lean theorems about an executable model of the loader state machine (per-user cache with timestamps and dependency "
             "timestamps, global theory, fresh_theory blocks, import-once module side effects, injected faults, extensions that "
-            "raise when cached items are re-applied), for every world (parser, extension clashes, lazy-import table, module "
-            "bodies), library, timestamps and fuel. SCOPE OF THE THEOREMS: histories that KEEP THE CONTENT of every file "
-            "(loads, interrupted loads, module imports, os.utime forwards/backwards, load_metadata). For those: load_eq_spec "
-            "(healthy library: no parse exception, no clash between items, acyclic, orders exist) -- the outcome of "
-            "load_theory(n, limit) is the specification's (same item list, 'limit not found' exactly when specified, never a "
-            "failure caused by the history); load_eq_spec_partial (any library: a normal return carries the specified theory); "
-            "import_clash_reported, missing_limit_reported, cycle_reported (every load, nothing cached); changed_file_reread: a "
-            "file whose TIMESTAMP differs (older or newer) from the cached one is parsed again and the new entry records the "
-            "timestamps of ALL transitive imports. NOT covered by a general theorem: histories in which file contents change "
-            "(fix C12-3, the `depends` list, has only changed_file_reread's last clause and one concrete instance "
-            "indirect_edit_older_mtime_example); these are judged by the deterministic battery of scripted histories. "
-            "FUEL: every theorem admits the outcome 'the model ran out of fuel'; no theorem says that some amount of fuel "
-            "suffices (the model's termination is not proved); every run confirms on its own histories that fuel 400 sufficed. "
+            "raise, several users), for every world (parser, extension clashes, lazy-import table, module bodies), library, "
+            "timestamps and fuel. HISTORIES: loads (any limit, with or without an injected fault), module imports, os.utime, "
+            "EDITS (a file replaced: new items, new imports, new timestamp -- older timestamps included) and load_metadata, under "
+            "the explicit hypothesis OkHistory, which excludes exactly (i) a touch/edit that gives a file a timestamp it already "
+            "had earlier in the process (the assumption a timestamp cache relies on) and (ii) a load between an edit that "
+            "changes the `imports` of a file and the next load_metadata (known finding, stale_imports_counterexample). For those: "
+            "load_eq_spec (library healthy NOW) -- the outcome of load_theory(n, limit) IS the specification on the CURRENT "
+            "files; load_eq_fresh_process -- it is what a process that has just started on the current files returns; "
+            "load_returns_spec (any library: a normal return carries the specified theory); cache_invariant (every reusable "
+            "cache entry holds the specified parse of its file in the current library and recorded a timestamp for every "
+            "transitive import) and cache_invariant_after_error (a load that raised leaves a cache from which every later load "
+            "still equals the specification; what theory.thy holds right after an exception is NOT specified); "
+            "import_clash_reported, missing_limit_reported, cycle_reported, changed_file_reread. SEVERAL USERS: the model "
+            "(execU/stepU) has a library and cache per user, loads focus on the user's own directory (the code has NO "
+            "shadowing of / fall-back to master), module-level load_theory calls go to master; "
+            "user_resolution_spec_partial (a user's load = the specification on that user's files) is proved for worlds "
+            "without lazy imports only, users_isolated_partial for file operations only; the cross-user effects of loads "
+            "through lazy imports are tied by the second-user histories (now compared with the model step by step), not by a "
+            "theorem. FUEL: every theorem admits the outcome 'the model ran out of fuel'; no theorem says that some amount of "
+            "fuel suffices; every run confirms on its own histories that fuel 400 sufficed. "
             "FAILING-INPUT SEARCH: when the model correspondence breaks on a synthetic history on which no oracle objected, an "
-            "amplified history (every earlier load repeated after every change, the loaded theories replaced by their other "
-            "versions in turn) is run with every load judged against its own fresh process. What theory.thy holds AFTER an "
-            "exception is not compared. "
+            "amplified history is run with every load judged against its own fresh process. "
             "Tables (import graph, lazy imports, module -> load_theory calls) are regenerated from the sources each run and "
             "checked. Tie to logic/basic.py: scripted histories in subprocesses; every load is judged (a) against a fresh "
             "process on the files of that moment, (c) against a reference loader on observable names and exception classes "
             "only, and (b) compared with the model (outcome class, files parsed, modules executed, item list).",
     "note": "Trusted: Lean kernel, propext/Classical.choice/Quot.sound, the harness, the reference loader. Item contents are opaque. "
             "The property oracles (a) and (c) use only what a user can observe (exception class, names and canonical dump of "
-            "theory.thy); the tags threaded through wrapped internals (load_json_data, parse_item, get_extension, "
-            "unchecked_extend) serve the model correspondence only and are dropped, with a note in the evidence, when a "
-            "refactoring bypasses them. For REAL theories the reference loader takes the per-item ok flags from the "
-            "implementation's own run, so oracle (c) is independent there only for import order, limit logic and "
-            "presence/absence of item names; for synthetic libraries it is fully independent. Synthetic-library processes "
-            "are forked from one process that has imported the loader (state of a fresh process after `from logic import "
-            "basic`); real-library histories run in cold processes. Same-mtime-different-content is out of scope. Known "
-            "finding: edited `imports` are not re-read without load_metadata (stale_imports_counterexample). Model = code with "
-            "fixes C12-1..4; single user (master).",
+            "theory.thy); the tags threaded through wrapped internals serve the model correspondence only and are dropped, with "
+            "a note in the evidence, when a refactoring bypasses them. For REAL theories the reference loader takes the per-item "
+            "ok flags from the implementation's own run, so oracle (c) is independent there only for import order, limit logic "
+            "and presence/absence of item names; for synthetic libraries it is fully independent. Synthetic-library processes "
+            "are forked from one process that has imported the loader; real-library histories run in cold processes. "
+            "Same-mtime-different-content (a timestamp reused for different content) is outside the property: it is exactly "
+            "hypothesis (i) of OkHistory. Known finding: edited `imports` are not re-read without load_metadata. Model = code "
+            "with fixes C12-1..4.",
     "design_ref": "DESIGN.md 4/C12",
 }
 FINDINGS = [
